@@ -78,6 +78,10 @@ func (e Evt) coq() string {
 		return "ECleanup"
 	case "gcgens":
 		return "EGcGens"
+	case "rotate_new":
+		return "ERotateNew"
+	case "cleanup_new":
+		return "ECleanupNew"
 	case "relbuckets_new":
 		return "ERelBucketsNew"
 	default:
@@ -111,6 +115,8 @@ type world struct {
 	met     *cache.Metrics
 	caches  []*cache.VerifHookedCache[[]byte]
 	onScan  func() // called from every Released() of ReleaseBuckets' unlocked scan
+	onSet   func() // called from every SetGeneration() of an armed cache (the loop of Cleaner.rotate)
+	armed   []bool // cache i is registered: its SetGeneration calls come from rotations, not from its own AddBucket
 	rel     []bool
 	ids     map[any]int
 	thr     []*thr
@@ -357,15 +363,31 @@ func (w *world) do(e Evt) {
 	case "release":
 		w.caches[e.C].Release()
 		w.rel[e.C] = true
-	case "rotate":
-		b, sz := w.cl.Rotate()
+	case "rotate", "rotate_new":
+		var b bool
+		var sz uint64
+		if e.Op == "rotate_new" {
+			if !w.withNewCacheInRotation(e.T, func() { b, sz = w.cl.Rotate() }) {
+				e.Op, e.T = "rotate", 0 // no rotation happened: a plain Rotate
+			}
+		} else {
+			b, sz = w.cl.Rotate()
+		}
 		ret = []int64{b2i(b), int64(sz)}
 		if b {
 			w.epoch++
 		}
-	case "cleanup":
+	case "cleanup", "cleanup_new":
 		st := &cache.CleanStat{}
-		if w.cl.Cleanup(st) {
+		var started bool
+		if e.Op == "cleanup_new" {
+			if !w.withNewCacheInRotation(e.T, func() { started = w.cl.Cleanup(st) }) {
+				e.Op, e.T = "cleanup", 0 // markStale did not rotate: a plain Cleanup
+			}
+		} else {
+			started = w.cl.Cleanup(st)
+		}
+		if started {
 			ret = []int64{1, int64(st.TotalSize), int64(st.SizeToClean), int64(st.GensCleaned), int64(st.BytesReleased), int64(st.BucketsCleaned), w.recreated()}
 			if n := w.recreated(); n > w.lastRec {
 				w.lastRec = n
@@ -427,16 +449,105 @@ func (w *world) do(e Evt) {
 	w.observe(ret)
 }
 
-func (w *world) newCache() {
-	c := cache.VerifNewHookedCache[[]byte](w.cl, w.met, func() {
+// makeCache runs NewCache -> AddBucket on the real cleaner (possibly from another goroutine); the cache's
+// SetGeneration callback stays off until register() has armed it.
+func (w *world) makeCache(id int) *cache.VerifHookedCache[[]byte] {
+	return cache.VerifNewHookedCache[[]byte](w.cl, w.met, func() {
 		if w.onScan != nil {
 			w.onScan()
 		}
+	}, func() {
+		if id < len(w.armed) && w.armed[id] && w.onSet != nil {
+			w.onSet()
+		}
 	})
+}
+
+func (w *world) register(c *cache.VerifHookedCache[[]byte]) {
 	w.ids[any(c)] = len(w.caches)
 	w.caches = append(w.caches, c)
 	w.rel = append(w.rel, false)
+	w.armed = append(w.armed, true)
 	w.esz = c.VerifEntrySize()
+}
+
+func (w *world) newCache() { w.register(w.makeCache(len(w.caches))) }
+
+// blockedInAddBucket: some goroutine is parked on the cleaner's mutex inside Cleaner.AddBucket.
+func blockedInAddBucket() bool {
+	buf := make([]byte, 1<<20)
+	buf = buf[:runtime.Stack(buf, true)]
+	for _, g := range strings.Split(string(buf), "\n\n") {
+		if !strings.Contains(g, "(*Cleaner).AddBucket") {
+			continue
+		}
+		head := g
+		if i := strings.IndexByte(g, '\n'); i >= 0 {
+			head = g[:i]
+		}
+		if strings.Contains(head, "sync.Mutex.Lock") || strings.Contains(head, "semacquire") {
+			return true
+		}
+	}
+	return false
+}
+
+// withNewCacheInRotation runs f (Cleaner.Rotate or Cleaner.Cleanup); from the pos-th SetGeneration call of the
+// rotation inside it another goroutine starts NewCache -> AddBucket. AddBucket needs the cleaner's lock, which
+// rotate holds: the callback returns as soon as that goroutine is parked on the mutex (or, if the lock is NOT
+// held there, when it has finished). Returns false if no rotation happened.
+func (w *world) withNewCacheInRotation(pos int, f func()) bool {
+	nb := len(w.cl.VerifBuckets())
+	if nb == 0 {
+		f()
+		return false
+	}
+	pos %= nb
+	id := len(w.caches)
+	ch := make(chan *cache.VerifHookedCache[[]byte], 1)
+	var got *cache.VerifHookedCache[[]byte]
+	n, fired := 0, false
+	w.onSet = func() {
+		if n == pos && !fired {
+			fired = true
+			go func() { ch <- w.makeCache(id) }()
+			deadline := time.Now().Add(settleTimeout)
+			for got == nil {
+				select {
+				case got = <-ch:
+					w.feat["sched:addbucket-proceeded-inside-rotation"] = true
+				default:
+					if blockedInAddBucket() {
+						w.feat["sched:addbucket-blocked-by-rotation"] = true
+						n++
+						return
+					}
+					runtime.Gosched()
+					if time.Now().After(deadline) {
+						w.dead = "NewCache started inside a rotation neither finished nor blocked"
+						n++
+						return
+					}
+				}
+			}
+		}
+		n++
+	}
+	f()
+	w.onSet = nil
+	if !fired {
+		return false
+	}
+	if got == nil {
+		select {
+		case got = <-ch:
+		case <-time.After(settleTimeout):
+			w.dead = "NewCache started inside a rotation did not finish after the rotation"
+			return true
+		}
+	}
+	w.register(got)
+	return true
 }
 
 func b2i(b bool) int64 {
@@ -734,9 +845,17 @@ func genRandom(r *rng.R, cw *casefile.Writer, conc bool) {
 				w.do(Evt{Op: "release", C: rng.Pick(r, ok)})
 			}
 		case x < 78:
-			w.do(Evt{Op: "rotate"})
+			if len(w.caches) < 7 && r.Chance(1, 4) {
+				w.do(Evt{Op: "rotate_new", T: r.Intn(8)}) // recorded as a plain rotate if nothing rotates
+			} else {
+				w.do(Evt{Op: "rotate"})
+			}
 		case x < 90:
-			w.do(Evt{Op: "cleanup"})
+			if len(w.caches) < 7 && r.Chance(1, 5) {
+				w.do(Evt{Op: "cleanup_new", T: r.Intn(8)}) // recorded as a plain cleanup if markStale does not rotate
+			} else {
+				w.do(Evt{Op: "cleanup"})
+			}
 		case x < 95:
 			w.do(Evt{Op: "gcgens"}) // also while creators are parked on an older generation (pattern R2, repaired by b9905fa)
 		default:
@@ -876,6 +995,42 @@ func genRebuild(r *rng.R, cw *casefile.Writer) {
 	}
 	w.drain()
 	w.emit(cw, "payload-rebuild", true)
+}
+
+// rotation schedules: n caches, a rotation (through Rotate, or through markStale when Cleanup has to mark the last
+// generation stale as well) from whose pos-th SetGeneration call a NewCache -> AddBucket is started; then loads on
+// the new cache and cleaning passes that drop the old generation
+func genRotationNew(cw *casefile.Writer, n, pos int, viaCleanup bool) {
+	w := newWorld(500)
+	var v int64 = 100
+	for i := 0; i < n; i++ {
+		w.do(Evt{Op: "new"})
+	}
+	get := func(c, k int, sz int64) {
+		v++
+		w.do(Evt{Op: "call", C: c, K: k, V: v, Sz: sz})
+		if id := len(w.thr) - 1; w.dead == "" && w.thr[id].status == 10 {
+			w.do(Evt{Op: "resume", T: id})
+		}
+	}
+	if viaCleanup {
+		get(0, 1, 700) // one generation, over the limit: markStale rotates and marks it stale
+		w.do(Evt{Op: "cleanup_new", T: pos})
+	} else {
+		get(0, 1, 200)
+		w.do(Evt{Op: "rotate_new", T: pos})
+	}
+	nc := len(w.caches) - 1
+	get(0, 2, 300)
+	w.do(Evt{Op: "cleanup"})
+	get(nc, 1, 400)
+	get(nc, 2, 300)
+	w.do(Evt{Op: "cleanup"})
+	w.do(Evt{Op: "rotate"})
+	get(nc, 3, 100)
+	w.do(Evt{Op: "cleanup"})
+	w.do(Evt{Op: "gcgens"})
+	w.emit(cw, "rotation-new-cache-inside", true)
 }
 
 // exhaustive: n caches, every subset of them released (in the given order), then ReleaseBuckets
@@ -1055,6 +1210,12 @@ func main() {
 			if n > 1 {
 				genReleaseSubset(cw, n, mask, asc, 300, n-1)
 			}
+		}
+	}
+	for n := 1; n <= 4; n++ {
+		for pos := 0; pos < n; pos++ {
+			genRotationNew(cw, n, pos, false)
+			genRotationNew(cw, n, pos, true)
 		}
 	}
 	cw.Exhaust = true
